@@ -70,11 +70,25 @@ def run(ctx):
                 return None
             c = r.choice(cols)
             f = rec[:-len(eol)].split("\t")
-            bad = r.choice(["x", "1x", "x1", "12a3", "abc", "1 2", " 120", ".5", "#70", "1.5x", "12-3", "5 ", "--5", "-", "+", "!", "/7", ",3", "(4)", "*"])
+            bad = r.choice(["x", "1x", "x1", "12a3", "abc", "1 2", " 120", ".5", "#70", "1.5x", "12-3", "5 ", "--5", "-", "+", "!", "/7", ",3", "(4)", "*", "12\xa0", "\xb15", "1\xe97"])
             if (fmt.name, c) in (("bdg", 3), ("narrowpeak", 6)):
                 # float columns: '.5' is a float; malformed floats have their own shapes
                 bad = r.choice([bad if bad != ".5" else ".5.", ".5.", "1..5", "1.2.3", "..", ".e1", "1e5e3", "1e", "e5", "1e+", "1.5e2.5", "1e1.5", "--1", "1.5-", "1.-5", "1,5", "0x1p3", "1_0", "2.5e--3", "4e-+2", "1e+-2", "3-5", "2-"])
             f[c] = bad
+            raws[pos] = "\t".join(f) + eol
+            line = pos
+        elif cls == "nonnumeric-info":
+            # a typed VCF INFO key (declared Integer / Float, Number=1 in this file's header) with a value that is not a number
+            if fmt.name != "vcf":
+                return None
+            f = rec[:-len(eol)].split("\t")
+            items = f[7].split(";")
+            cand = [i_ for i_, it in enumerate(items) if it.split("=")[0] in ("DP", "NS", "MQ", "H2X") and "=" in it]
+            if not cand:
+                return None
+            i_ = r.choice(cand)
+            items[i_] = items[i_].split("=")[0] + "=" + r.choice(["2x", "x", "1.2.3", "7 "])
+            f[7] = ";".join(items)
             raws[pos] = "\t".join(f) + eol
             line = pos
         elif cls == "alphabet":
@@ -83,7 +97,7 @@ def run(ctx):
                 return None
             c, alpha = r.choice(cols)
             f = rec[:-len(eol)].split("\t")
-            ch = r.choice([chr(b) for b in range(33, 127) if chr(b) not in alpha and chr(b).upper() not in alpha])
+            ch = r.choice([chr(b) for b in list(range(33, 127)) + [0xA0, 0xAD, 0xB1, 0xE9, 0xFF] * 3 if chr(b) not in alpha and chr(b).upper() not in alpha])      # bytes beyond ASCII too (a no-break space, a soft hyphen)
             # the foreign character alone, or after / before / between characters of the alphabet
             ok_ = r.choice(alpha)
             f[c] = r.choice([ch, ch, ok_ + ch, ch + ok_, ok_ + ch + r.choice(alpha)])
@@ -164,7 +178,18 @@ def run(ctx):
         good_path = ctx.path("good" + fmt.suffix)
         with open(good_path, "wb") as f:
             f.write(fc["data"])
-        for cls in ("marker", "plus", "nonnumeric", "alphabet", "extra-column", "missing-column"):
+        if fname == "vcf":
+            # earlier in the same process: a well-formed VCF whose header declares the same INFO ids with OTHER types (MQ as String, DP as Float ...), read and looked at
+            fc_other = make_file("vcf", random.Random(case["seed"] + 1), 3, "normal", {"noncanon": False, "eol": "\n", "final_newline": True, "info_defs_alt": True})
+            op_ = ctx.path("other.vcf")
+            with open(op_, "wb") as f:
+                f.write(fc_other["data"])
+            try:
+                tables.rows_of(bnp.open(op_, buffer_type=bt).read(), list(FORMATS["vcf"].fields))
+                ctx.count("vcf_with_other_info_types_read_before")
+            except Exception:
+                pass
+        for cls in ("marker", "plus", "nonnumeric", "nonnumeric-info", "alphabet", "extra-column", "missing-column"):
             for pos in range(n):
                 inj = inject(fc, fmt, r, cls, pos)
                 if inj is None:
@@ -184,13 +209,14 @@ def run(ctx):
                         configs.append((k, lazy, path if (k + lazy) % 2 == 0 or not ctx.quick else gz, "chunked"))
                 wit = {"format": fname, "class": cls, "record": pos, "n_records": n, "data": data.decode("latin1")[:1200], "seed": case["seed"]}
                 numbers = {}
+                other_error_types = {}
                 span = (pos * L, pos * L + L - 1)
                 for k, lazy, p, mode in configs:
                     how = r.choice(["columns", "columns", "whole-first", "tolist-first"])
                     inter = k is not None and r.random() < 0.15
                     eager_read_completed[0] = False
                     out = attempt(p, fmt, bt, lazy, k, how, other=good_path if inter else None)
-                    if eager_read_completed[0] and out[0] != "table":
+                    if eager_read_completed[0] and out[0] != "table" and cls != "nonnumeric-info":       # (typed INFO stays a lazily parsed sub-table in eager mode too: its values are read when they are looked at)
                         ctx.check("must-raise:" + cls, False, "%s/eager-read-returned-a-table-and-failed-only-when-it-was-looked-at:%s" % (cls, "gzip" if p.endswith(".gz") else "plain"),
                                   "%s with %s at record %d: reading with lazy=False completed (k=%s) and the error came only when the table was looked at" % (fname, cls, pos, k), dict(wit, k=k, gzip=p.endswith(".gz")), None)
                     nt = (data, cls, pos, k, lazy, p.endswith(".gz")) if n >= 2 else None
@@ -213,6 +239,11 @@ def run(ctx):
                         numbers.setdefault(ln, cfg)
                     else:
                         ctx.count("other_errors:" + out[1])
+                        other_error_types.setdefault(out[1], cfg)
+                if numbers and other_error_types and cls in ("nonnumeric", "alphabet"):        # (for a wrong number of columns the kind of error depends on where chunk boundaries fall: the listed per-chunk column inference)
+                    # the same violation in the same file is diagnosed as a format error (with its line) in some configurations and surfaces as another kind of error in others
+                    ctx.check("line-number-invariant:" + cls, False, "%s/diagnosed-as-a-format-error-in-some-configurations-only" % cls, "%s with %s at record %d: FormatException (lines %r) in some configurations, %r in others" % (fname, cls, pos, sorted(numbers), sorted(other_error_types)),
+                              dict(wit, numbers={str(k_): v_ for k_, v_ in numbers.items()}, others=dict(other_error_types)), (data, cls, pos, "diag"))
                 if len(numbers) > 1:
                     ctx.check("line-number-invariant:" + cls, False, "%s/line-number-differs-between-configurations" % cls, "%s with %s at record %d: line numbers %r" % (fname, cls, pos, numbers), dict(wit, numbers={str(k): v for k, v in numbers.items()}), (data, cls, pos, "inv"))
                 elif numbers:
